@@ -1967,6 +1967,8 @@ class Obj(Container):
                 ))
             elif name == tensor_names.coulomb:  # ERI in chemist notation
                 return ("aaaa", "aabb", "bbaa", "bbbb")
+            elif name == tensor_names.fock:  # the fock matrix is spin diagonal
+                return ("aa", "bb")
         elif isinstance(obj, KroneckerDelta):  # delta
             # spins have to be equal
             return ("aa", "bb")
